@@ -103,3 +103,6 @@ func FromReflect(s *vschema.Schema, mi int, m protoreflect.Message) *Val {
 	out.B = append([]byte(nil), m.GetUnknown()...)
 	return RepNorm(s, mi, out)
 }
+
+// ScalarFromValue exposes the scalar conversion (protoreflect.Value -> bits/blob token) for engines.
+func ScalarFromValue(k vschema.Kind, v protoreflect.Value) *Val { return scalarFromValue(k, v) }
